@@ -197,6 +197,9 @@ def rule_directive_order(rep: Report, repo: Repo, rule: str) -> None:
     fn = ci.methods.get("to_text")
     where = f"{MOD}:Directive.to_text"
     if fn is None:
+        r = repo.find_method("Directive", "to_text")       # inherited: the layout may live in an overridden hook
+        fn = r[1] if r else None
+    if fn is None:
         raise AnalysisError("anchor vanished: Directive.to_text")
     outs = _eval(repo, "Directive", fn)
     doc = attr(SELF, "document")
@@ -695,6 +698,13 @@ def _is_repeat(t, title, ch, o: Outcome) -> bool:
     if t[0] == "binop" and t[1] == "*":
         ln = ("call", glob("len"), (title,), ())
         return (t[2] == ch and t[3] == ln) or (t[3] == ch and t[2] == ln)
+    # "".join(ch for _ in title) / "".join([ch for _ in title]) / "".join(ch for _ in range(len(title)))
+    if t[0] == "call" and t[1] == ("attr", const(""), "join") and len(t[2]) == 1 and t[2][0][0] == "comp":
+        comp = t[2][0]
+        gens = comp[3]
+        ln = ("call", glob("len"), (title,), ())
+        return len(gens) == 1 and not gens[0][2] and comp[2] == ch and \
+            gens[0][1] in (title, ("call", glob("range"), (ln,), ()), ("call", glob("range"), (const(0), ln), ()))
     return False
 
 
